@@ -268,6 +268,15 @@ def step (line : String) : String :=
     | .issued _ => "issued"
     | .unauthorized => "unauthorized"
     | .badMethod => "bad-method"
+  | ["c16fix", sel, blk, cols] =>
+    -- AddRequiredFields + AddUniqueIndex on (selected inputs, block fields, table columns)
+    let pairs (x : String) : List (String × String) := (splitList x ",").filterMap fun e =>
+      match e.splitOn ":" with | [a, b] => some (a, b) | _ => none
+    let ig : Schema.Ig := { block := pairs blk, cols := splitList cols ",",
+                            selInputs := (pairs sel).map fun p => (p.1 == "i", p.2) }
+    let ig' := Schema.addUnique (Schema.addRequired ig)
+    ",".intercalate (ig'.block.map (·.1)) ++ " | " ++ ",".intercalate ig'.cols ++ " | " ++
+      ";".intercalate (ig'.unique.map (",".intercalate ·)) ++ " | " ++ toString (Schema.colRefsOK ig')
   | ["planflags", fields] =>
     let fs := if fields == "-" then [] else fields.splitOn ","
     let flags := Plan.plan fs
